@@ -11,6 +11,7 @@ import (
 	"github.com/ethereum/go-ethereum/common"
 
 	"github.com/EscanBE/evermint/v12/indexer"
+	evertypes "github.com/EscanBE/evermint/v12/types"
 	evmserver "github.com/EscanBE/evermint/v12/server"
 
 	"verifharness/trace"
@@ -253,16 +254,24 @@ func Lookups(r *Rec, n *Names, idx *indexer.KVIndexer, tip int64) []trace.M {
 		q["res"] = conv(tr.Height, tr.TxIndex, tr.EthTxIndex, tr.Failed)
 	}
 	out = append(out, q)
+	byRec := map[evertypes.TxResult]string{}
+	for _, hh := range hashes {
+		if t2, err := idx.GetByTxHash(hh); err == nil {
+			byRec[*t2] = n.TxKnown(hh)
+		}
+	}
 	for h := int64(1); h <= tip+1; h++ {
-		for i := int32(0); i < 5; i++ {
+		lim := int32(5)
+		if rb, ok := r.Blocks[h]; ok && int32(len(rb.Txs))+1 > lim {
+			lim = int32(len(rb.Txs)) + 1
+		}
+		for i := int32(0); i < lim; i++ {
 			q := trace.M{"ev": "Lookup", "by": "index", "h": h, "i": int64(i), "res": notfound(), "hash": "none"}
 			if tr, err := idx.GetByBlockAndIndex(h, i); err == nil {
 				q["res"] = conv(tr.Height, tr.TxIndex, tr.EthTxIndex, tr.Failed)
 				// which hash does the (height, index) key point to: read back through the by-hash family
-				for _, hh := range hashes {
-					if t2, err := idx.GetByTxHash(hh); err == nil && *t2 == *tr {
-						q["hash"] = n.TxKnown(hh)
-					}
+				if tok, ok := byRec[*tr]; ok {
+					q["hash"] = tok
 				}
 			}
 			out = append(out, q)
